@@ -18,7 +18,7 @@ VERDICT = "c13_verdict"
 EXPLAIN = "c13_explain"
 CASES_PER_FILE = 60
 CASE_TIMEOUT = 20
-TIERS = {"quick": {"n": 1300}, "thorough": {"n": 9000, "exhaustive": True}}
+TIERS = {"quick": {"n": 1000}, "thorough": {"n": 9000, "exhaustive": True}}
 RULE = ("function signatures (0-4 positional-or-keyword parameters with every default suffix, optional *args, 0-3 "
         "keyword-only parameters each with/without default, optional **kwargs, annotations incl. return, sync/async, "
         "def/lambda, docstring None/''/text, __defaults__ ()/None) x wraps variants (plain; injected names present/"
